@@ -246,6 +246,11 @@ impl Scenario for C05 {
     }
 
     fn run(&self, seed: u64, ch: Chooser, ctx: &RunCtx) -> RunOut {
+        // two thirds of the runs are pair-level agreement schedules (the sweep first), one third node-level liveness
+        if ctx.index % 3 != 0 {
+            let l1_index = ctx.index - ctx.index / 3 - 1;
+            return super::l1::c05(seed, ch, ctx, l1_index);
+        }
         let mut w = mesh::new_world(seed, ch, ctx);
         let mut states = vec![];
         let res = scenario(&mut w, ctx, &mut states);
@@ -255,16 +260,16 @@ impl Scenario for C05 {
 
     fn budget(&self, tier: Tier) -> (u64, u64) {
         match tier {
-            Tier::Quick => (3000, 120),
-            Tier::Thorough => (120_000, 1500),
+            Tier::Quick => (9000, 120),
+            Tier::Thorough => (600_000, 1500),
         }
     }
 
     fn rule(&self) -> &'static str {
-        "2-3 real nodes, every pair configured in one or both directions (dual open), staggered starts; a fault phase of 0-900 s with a per-run subset of {loss 10-100 %, duplication, delay up to 90 s, jitter up to 5 s, one- and two-way partitions with heals, node stalls, send errors}, then a reliable phase; oracle: all pairs mutually connected and a probe frame delivered in both directions within peer timeout + retry horizon (120 retries x 2 s housekeeping period = 240 s) + 10 s slack + 2 x the reconnect back-off reached when faults stop, after the last fault (including the landing time of the last delayed datagram). Non-trivial: at least one fault fired before the liveness check. Distinct = distinct event-sequence hashes."
+        "two thirds of the runs, pair level (safety): two real PeerCrypto ends behind a replica of the node's per-address routing; the first 8^4 of them (thorough: 8^6) are a seed-indexed sweep over all schedules of that length over {A initiates, B initiates, deliver oldest, deliver newest, deliver a duplicate, drop, tick A, tick B}, the rest random schedules of 10-200 steps (any in-flight datagram, forced re-dials); oracle after every step: an attempt reports success at most once, each end received exactly a payload the other offered, an attempt never completes against two partners, and when the two current connections were completed against each other: complementary initiator flags (exactly one starts rotation), equal ciphers, each opens what the other seals. One third of the runs, node level (liveness): 2-3 real nodes, every pair configured in one or both directions (dual open), staggered starts; a fault phase of 0-900 s with a per-run subset of {loss 10-100 %, duplication, delay up to 90 s, jitter up to 5 s, one- and two-way partitions with heals, node stalls, send errors}, then a reliable phase; oracle: all pairs mutually connected and a probe frame delivered in both directions within peer timeout + retry horizon (120 retries x 2 s housekeeping period = 240 s) + 10 s slack + 2 x the reconnect back-off reached when faults stop, after the last fault (including the landing time of the last delayed datagram). Non-trivial: at least one fault fired before the liveness check. Distinct = distinct event-sequence hashes."
     }
 
     fn expected_probes(&self) -> Vec<&'static str> {
-        vec!["c05_liveness_checked_after_faults", "c05_payload_checked", "c05_dual_open_configured", "c05_one_way_partition", "c05_recovery_took_over_30s", "fault_drop", "fault_dup", "fault_delay_gt_1s", "fault_partition", "fault_stall", "fault_send_error"]
+        vec!["c05_l1_matched_pairs_checked", "c05_l1_sweep_runs", "c05_l1_completions", "c05_liveness_checked_after_faults", "c05_payload_checked", "c05_dual_open_configured", "c05_one_way_partition", "c05_recovery_took_over_30s", "fault_drop", "fault_dup", "fault_delay_gt_1s", "fault_partition", "fault_stall", "fault_send_error"]
     }
 }
